@@ -77,6 +77,18 @@ CHECKS = {
         note="Trusted: TLC, the extraction of observations by the harness (oalv parse/compile). The generated lexer is observed, not modelled, so this is trace validation against a monitor specification rather than exhaustive model checking of a lexer design.",
         technique="trace validation: observations of real lexer/parser/compiler runs judged by a TLA+ monitor specification (TLC) + design-level tree invariants model-checked in Peg.tla",
     ),
+    "C04": dict(
+        design_ref="DESIGN.md 3.9, 4 (C04)",
+        text="Termination of the three loops that could diverge is model-checked on their specifications (Unify.tla: Acyclic, "
+             "NoDivergence, Terminates; Peg.tla: Progress; Loader.tla: Terminates) and Frontends.tla has no crash or hang outcome. "
+             "The binding is observational: rendered token sequences of the parser families with extreme lexemes, character- and "
+             "token-level mutants of the repository corpus, arbitrary Unicode strings and nests to depth 200 go through "
+             "tokenizer+parser, the full pipeline and oal_wasm::compile in process and, for a sample, through the real oal-cli and "
+             "oal-lsp; any panic, abort, stack overflow, hang or server exit is a violation; recorded outcomes are validated by TLC "
+             "against the totality monitor of FrontendsTrace.tla.",
+        note="Trusted: TLC, the process runner (timeouts: 20 s in process, 60 s binaries). The byte-level behaviour of the logos lexer is observed, not modelled; the input space is sampled (seeded), only the token-sequence families are exhaustive (C12).",
+        technique="termination invariants model-checked in the TLA+ specs of unifier/parser/loader + trace validation of observed front-end outcomes against Frontends.tla over generated and mutated inputs",
+    ),
 }
 
 PENDING_REASON = "check not built yet (work in progress; see DESIGN.md section 8 for the build order)"
